@@ -102,7 +102,7 @@ def decide(prop, tier, seed, jobs, t0):
     bounded = []
     if tier == "thorough" or info.get("bounded_in_quick"):
         from . import bounded as Bd
-        bounded = Bd.run(prop, tier, seed)
+        ground = ground + Bd.run(prop, tier, seed)
 
     violations = []
     undecided = []
